@@ -13,14 +13,20 @@ use std::time::Instant;
 #[derive(Clone, Copy, PartialEq, Eq, Debug)]
 pub enum Tier { Quick, Thorough }
 
+#[derive(Clone)]
 pub struct Ctx {
     pub prop: &'static str,
     pub tier: Tier,
     pub seed: u64,
     pub home: PathBuf,      // /verif
+    pub out: PathBuf,       // where new replays and evidence go (default: home)
     pub repo: PathBuf,      // /repo (or mutant copy)
     pub work: PathBuf,      // scratch dir for this process
     pub strict: bool,       // replay mode
+    pub in_child: bool,     // this process is a --serve worker
+    /// generate the case and fill sample/artifacts but skip the oracle (used to describe a
+    /// case whose evaluation killed the worker child)
+    pub dry: bool,
 }
 
 #[derive(Clone, Debug)]
@@ -59,6 +65,8 @@ pub struct Part {
     pub threads: usize,
     pub max_shrink_iters: u32,
     pub check: CheckFn,
+    /// run each case in a persistent child process (crash / hang isolation)
+    pub remote: Option<crate::remote::RemoteCfg>,
 }
 
 #[derive(Clone, Debug)]
@@ -128,6 +136,13 @@ pub fn normalize_sig(s: &str) -> String {
 }
 
 pub fn run_check_caught(ctx: &Ctx, part: &Part, genome: &[u16]) -> CaseReport {
+    if let (Some(cfg), false) = (part.remote, ctx.in_child) {
+        return crate::remote::remote_check(ctx, part, cfg, genome);
+    }
+    run_check_local(ctx, part, genome)
+}
+
+pub fn run_check_local(ctx: &Ctx, part: &Part, genome: &[u16]) -> CaseReport {
     match std::panic::catch_unwind(std::panic::AssertUnwindSafe(|| (part.check)(ctx, genome))) {
         Ok(r) => r,
         Err(_) => {
@@ -149,7 +164,7 @@ pub fn write_replay(ctx: &Ctx, part: &str, genome: &[u16], rep: &CaseReport, unk
     let mut bytes = Vec::new();
     for w in genome { bytes.extend_from_slice(&w.to_le_bytes()); }
     let h = fnv(&bytes) ^ fnv_str(part);
-    let dir = ctx.home.join("replays").join(ctx.prop).join(format!("{h:016x}"));
+    let dir = ctx.out.join("replays").join(ctx.prop).join(format!("{h:016x}"));
     let _ = std::fs::create_dir_all(&dir);
     let case = json!({
         "property": ctx.prop, "part": part, "seed": ctx.seed,
@@ -195,9 +210,12 @@ pub fn run_parts(ctx: &Ctx, parts: &[Part]) -> Outcome {
                     let _ = seed_bytes;
                     let mut runner = TestRunner::new(cfg);
                     let shrinking = std::cell::Cell::new(false);
+                    let shrink_started: std::cell::Cell<Option<Instant>> = std::cell::Cell::new(None);
                     let last_fail: std::cell::RefCell<Option<(Vec<u16>, CaseReport, Vec<Failure>)>> = std::cell::RefCell::new(None);
                     let res = runner.run(&GenomeStrategy(part.genome_len), |genome| {
                         if stop.load(Ordering::Relaxed) && !shrinking.get() { return Ok(()); }
+                        // shrinking is best effort under a wall budget; it never affects the verdict
+                        if let Some(t) = shrink_started.get() { if t.elapsed().as_secs() > 180 { return Ok(()); } }
                         let rep = run_check_caught(ctx, part, &genome);
                         let (kn, unk): (Vec<_>, Vec<_>) = rep.failures.iter().cloned().partition(|f| classify(known, f).is_some());
                         if !shrinking.get() {
@@ -216,6 +234,7 @@ pub fn run_parts(ctx: &Ctx, parts: &[Part]) -> Outcome {
                         }
                         if unk.is_empty() { Ok(()) } else {
                             shrinking.set(true);
+                            if shrink_started.get().is_none() { shrink_started.set(Some(Instant::now())); }
                             stop.store(true, Ordering::Relaxed);
                             let reason = unk[0].signature.clone();
                             *last_fail.borrow_mut() = Some((genome.clone(), rep, unk));
@@ -286,18 +305,45 @@ pub fn write_evidence(ctx: &Ctx, out: &Outcome, rule: &str, assumptions: &[&str]
         "wall_s": wall,
         "violations": out.violations.len(),
     });
-    let p = ctx.home.join("evidence").join(format!("{}.json", ctx.prop));
+    let p = ctx.out.join("evidence").join(format!("{}.json", ctx.prop));
     let _ = std::fs::create_dir_all(p.parent().unwrap());
     std::fs::write(p, serde_json::to_string_pretty(&ev).unwrap()).expect("write evidence");
 }
 
 /// Replay tier / --replay: run one stored case in strict mode.
-pub fn replay_file(ctx: &Ctx, parts: &[Part], path: &Path) -> (Vec<Failure>, Vec<Failure>) {
+pub type LiteralFn = fn(&Ctx, &Value) -> CaseReport;
+
+pub fn replay_file(ctx: &Ctx, parts: &[Part], literal: Option<LiteralFn>, path: &Path) -> (Vec<Failure>, Vec<Failure>) {
     let v: Value = serde_json::from_str(&std::fs::read_to_string(path).expect("read replay")).expect("parse replay");
     let pname = v["part"].as_str().unwrap_or("");
+    if pname == "literal" {
+        let f = literal.expect("property has no literal replay support");
+        let known = load_known(&ctx.home, ctx.prop);
+        // literal cases run in a child too (they may crash the process): re-exec self
+        let rep = if ctx.in_child { f(ctx, &v) } else { literal_in_child(ctx, path) };
+        return rep.failures.into_iter().partition(|f| classify(&known, f).is_some());
+    }
     let genome: Vec<u16> = v["genome"].as_array().map(|a| a.iter().map(|x| x.as_u64().unwrap_or(0) as u16).collect()).unwrap_or_default();
     let part = parts.iter().find(|p| p.name == pname).unwrap_or_else(|| panic!("unknown part {pname}"));
     let known = load_known(&ctx.home, ctx.prop);
     let rep = run_check_caught(ctx, part, &genome);
     rep.failures.into_iter().partition(|f| classify(&known, f).is_some())
+}
+
+fn literal_in_child(ctx: &Ctx, path: &Path) -> CaseReport {
+    let exe = std::env::current_exe().expect("exe");
+    let out = std::process::Command::new("timeout").arg("-k").arg("5").arg("300").arg(exe).arg(ctx.prop).arg("--literal").arg(path)
+        .env("VF_HOME", &ctx.home).env("VF_REPO_ROOT", &ctx.repo).output().expect("spawn literal child");
+    use std::os::unix::process::ExitStatusExt;
+    let mut rep = CaseReport::default();
+    let stdout = String::from_utf8_lossy(&out.stdout);
+    if let Some(line) = stdout.lines().rev().find(|l| l.starts_with('{')) {
+        if let Ok(v) = serde_json::from_str::<Value>(line) { return crate::remote::report_from_json(&v); }
+    }
+    match (out.status.signal(), out.status.code()) {
+        (Some(sig), _) => rep.fail(format!("process-died:signal-{sig}"), "literal replay child died"),
+        (_, Some(124)) | (_, Some(137)) => rep.fail("hang", "literal replay child exceeded 300 s"),
+        (_, code) => rep.fail(format!("process-died:exit-{}", code.unwrap_or(-1)), "literal replay child produced no report"),
+    }
+    rep
 }
